@@ -12,9 +12,10 @@ from harness import atoms as AT
 
 THEOREMS = {
     'RsomeV.Props.C11': ['RsomeV.C11.defsol_equiv', 'RsomeV.C11.defsol_cost', 'RsomeV.C11.ecos_equiv', 'RsomeV.C11.ecos_cost', 'RsomeV.C11.ecos_exp_membership',
-                         'RsomeV.C11.ortools_equiv', 'RsomeV.C11.ortools_cost', 'RsomeV.C11.gurobi_equiv', 'RsomeV.C11.gurobi_cost', 'RsomeV.C11.status_honest', 'RsomeV.C11.status_honest_grb_ort',
+                         'RsomeV.C11.ortools_equiv', 'RsomeV.C11.ortools_cost', 'RsomeV.C11.gurobi_equiv', 'RsomeV.C11.gurobi_cost', 'RsomeV.C11.status_honest', 'RsomeV.C11.status_honest_grb_ort', 'RsomeV.C11.status_tests_as_modelled', 'RsomeV.C11.status_models_follow_tables',
                          'RsomeV.C11.ortools_keeps_infeasible_row', 'RsomeV.C11.gurobi_free_head'],
 }
+GEN = True        # Gen/Status.lean is regenerated from the four interface files on every run
 RULE = ("random deterministic LP / MILP (binaries and integers with user bounds, also tighter than [0,1]) / SOCP / exp-cone models "
         "solved through default (SciPy/HiGHS), OR-Tools, ECOS and Gurobi as far as each supports the cone types; plus infeasible and "
         "unbounded variants; non-trivial = model solved by at least two interfaces; distinct by content hash")
